@@ -124,6 +124,30 @@ def run_tlc(module, cfg, workers='auto', env=None, timeout=1800, simulate=None, 
     return res
 
 
+def run_apalache(module, cinit, init, inv, length, timeout=900):
+    """Bounded symbolic check with Apalache (used for inductive invariants: --init=<invariant> --length=1).
+    Returns 'ok' (no error up to that length), 'violated', or 'error: ...'."""
+    os.makedirs(WORK, exist_ok=True)
+    outdir = tempfile.mkdtemp(prefix='apa_', dir=WORK)
+    cmd = ['apalache-mc', 'check', '--cinit=' + cinit, '--init=' + init, '--inv=' + inv, '--length=%d' % length,
+           '--out-dir=' + outdir, module + '.tla']
+    try:
+        p = subprocess.run(cmd, cwd=SPEC, stdout=subprocess.PIPE, stderr=subprocess.STDOUT, timeout=timeout, text=True,
+                           errors='replace')
+        out = p.stdout
+    except subprocess.TimeoutExpired:
+        return 'error: timeout after %ds' % timeout
+    except OSError as e:
+        return 'error: %s' % e
+    finally:
+        shutil.rmtree(outdir, ignore_errors=True)
+    if 'EXITCODE: OK' in out and 'The outcome is: NoError' in out:
+        return 'ok'
+    if 'The outcome is: Error' in out and 'violated' in out:
+        return 'violated'
+    return 'error: ' + out[-300:].replace('\n', ' | ')
+
+
 def write_ndjson(path, records):
     with open(path, 'w') as f:
         for r in records:
